@@ -13,4 +13,4 @@ def go(u):
         return u.name, "undecided", None, None, [], [str(e)]
 with cf.ThreadPoolExecutor(max_workers=8) as ex:
     for res in ex.map(go, units.values()):
-        print(res)
+        print("FAIL" if (res[1] != "ok" or res[3]) else "pass", res)
